@@ -3,10 +3,15 @@
 // One source, several translation units selected by -DC07_GROUP=n (see the table at the end of this comment).
 // The generic driver, the oracle and the shape alphabets are in c07_driver.hpp; the broadcasting reference in engine/nmc_ref_c07.hpp.
 //
-// Case keys:   <function>|<element type ids>|<operand kinds>|<shape a>|<shape b>[|<shape c>]
+// Case keys:   <function>|<element type ids>|<operand kinds>|<shape a>[|<shape b>[|<shape c>]]
 //              outer_<function>|<type ids>|<dtype id or -1>|<kinds>|<shape a>|<shape b>
 //   type ids 0 int8 1 int16 2 int32 3 int64 4 uint8 5 uint32 6 float 7 double (8 bool);
-//   kinds: one digit per operand, 0 ndarray, 1 lazy view (transposed view of an ndarray), 2 scalar (plain number; shape "_").
+//   kinds: one decimal digit per operand (leading zeros dropped: 2 = array,scalar; 20 = scalar,array; 102 = view,array,scalar),
+//          0 ndarray, 1 lazy view (transposed view of an ndarray), 2 scalar (plain number; its shape is written "_").
+//   where: the type ids are (condition, x, y).  NAME_p = activation NAME called with explicit parameters.
+//
+// Expected element type: decltype(functor(a_elem, b_elem)) for ufuncs / activations, the requested dtype for outer_*(..., dtype),
+// decltype(true ? x_elem : y_elem) for where (the condition only selects), double for deg2rad & co. on an integer element type.
 //
 // NON-TRIVIALITY RULE.  A case counts as non-trivial iff the operand shapes are broadcastable, the result has >= 2 elements
 // and, for functions of two or more operands, at least one operand is stretched / rank-extended / a scalar (its shape differs
@@ -29,10 +34,10 @@
 //     2    divide (64) multiply (16)
 //     3    less (64) greater (16)
 //     4    equal (64) not_equal (16)
-//     5    maximum minimum less_equal greater_equal (16 each)
+//     5    maximum minimum (17: + (double,int8)) less_equal greater_equal (16)
 //     6    mod bitwise_and bitwise_or bitwise_xor left_shift right_shift invert   (integer types, 12 pairs)
-//     7    logical_and logical_or logical_xor logical_not where
-//     8    fmod power fmax fmin arctan2 hypot ldexp
+//     7    logical_and logical_or logical_xor where
+//     8    fmod power fmax fmin arctan2 hypot ldexp logical_not
 //     9    negative positive square fabs reciprocal signbit isfinite isinf isnan ceil floor trunc rint deg2rad degrees rad2deg radians
 //    10    sin cos tan arcsin arccos arctan sinh cosh tanh arcsinh arccosh arctanh
 //    11    exp exp2 expm1 log log2 log10 log1p sqrt cbrt + the 18 activations (default and explicit parameters)
@@ -40,7 +45,8 @@
 // Restriction of the type / kind matrix (compile budget: one binary instantiation costs ~0.7 s of g++ time): all 64 ordered element-type
 // pairs for add, divide, less, equal (one function per semantic class: additive, quotient, ordering, equality); the 8 same-type and 8
 // designated mixed pairs (every type on either side) for the other 8 members of the family; operand kinds other than ndarray x ndarray
-// (array-view, view-array, array-scalar, scalar-array, view-scalar, scalar-scalar) on 2-3 type pairs per function.
+// (array-view, view-array, array-scalar, scalar-array, view-scalar, scalar-scalar) on 1-3 type pairs per function (the M_* menus below).
+// array::f is eval(view::f(...)) in every ufunc header; the harness calls both public entry points and requires identical observations.
 #ifndef C07_GROUP
 #error "compile with -DC07_GROUP=1..12"
 #endif
@@ -74,7 +80,6 @@
 #include "nmtools/array/array/ufuncs/logical_and.hpp"
 #include "nmtools/array/array/ufuncs/logical_or.hpp"
 #include "nmtools/array/array/ufuncs/logical_xor.hpp"
-#include "nmtools/array/array/ufuncs/logical_not.hpp"
 #include "nmtools/array/array/where.hpp"
 #elif C07_GROUP == 8
 #include "nmtools/array/array/ufuncs/fmod.hpp"
@@ -84,6 +89,7 @@
 #include "nmtools/array/array/ufuncs/arctan2.hpp"
 #include "nmtools/array/array/ufuncs/hypot.hpp"
 #include "nmtools/array/array/ufuncs/ldexp.hpp"
+#include "nmtools/array/array/ufuncs/logical_not.hpp"
 #elif C07_GROUP == 9
 #include "nmtools/array/array/ufuncs/negative.hpp"
 #include "nmtools/array/array/ufuncs/positive.hpp"
@@ -251,15 +257,15 @@ using group_fns = fl<mod_d, bitwise_and_d, bitwise_or_d, bitwise_xor_d, left_shi
 C07_BINARY(logical_and, view::logical_and_t{}, D_LOGIC, D_LOGIC, PLOG, M_STD)
 C07_BINARY(logical_or, view::logical_or_t{}, D_LOGIC, D_LOGIC, PLOG, M_STD)
 C07_BINARY(logical_xor, view::logical_xor_t{}, D_LOGIC, D_LOGIC, PLOG, M_STD)
-C07_UNARY(logical_not, view::logical_not_t{}, D_LOGIC, U8L)
-// where: type triples (condition, x, y); all of them with three ndarrays, the kind menu on the (bool,int32,int32) and (uint8,int8,double) triples
+// where: type triples (condition, x, y); all of them with three ndarrays, the kind menu on the (bool,int32,int32) triple, its scalar part also on (uint8,int8,double)
 struct where_d { static constexpr const char* name = "where"; static constexpr int arity = 3;
     using types = tl<tt<u8, i8, i8>, tt<u8, i16, i16>, tt<i32, i32, i32>, tt<u8, i64, i64>, tt<i8, u8, u8>, tt<u8, u32, u32>, tt<u8, f32, f32>, tt<f64, f64, f64>,
                      tt<bool, i32, i32>, tt<bool, f32, f32>, tt<f64, i32, i32>, tt<i64, i8, i8>, tt<u8, i8, f64>, tt<u8, f32, i64>, tt<i32, u32, i16>, tt<u8, i32, i64>>;
-    template <typename TC, typename TX, typename TY> static constexpr bool menu() { return (std::is_same_v<TC, bool> && std::is_same_v<TX, i32>) || (std::is_same_v<TX, i8> && std::is_same_v<TY, f64>); }
+    // 2 = every kind triple of WHERE_KINDS, 1 = the kind triples with a scalar, 0 = three ndarrays only
+    template <typename TC, typename TX, typename TY> static constexpr int menu() { return (std::is_same_v<TC, bool> && std::is_same_v<TX, i32>) ? 2 : (std::is_same_v<TX, i8> && std::is_same_v<TY, f64>) ? 1 : 0; }
     template <typename A, typename B, typename C> static auto lazy(const A& a, const B& b, const C& c) { return view::where(a, b, c); }
     template <typename A, typename B, typename C> static auto eager(const A& a, const B& b, const C& c) { return na::where(a, b, c); } };
-using group_fns = fl<logical_and_d, logical_or_d, logical_xor_d, logical_not_d, where_d>;
+using group_fns = fl<logical_and_d, logical_or_d, logical_xor_d, where_d>;
 #elif C07_GROUP == 8
 C07_BINARY(fmod, view::fmod_t<>{}, D_ARITH, D_NZS, PMATH, M_FLT)
 C07_BINARY(power, view::power_t<>{}, D_POS, D_SMALL, PMATH, M_FLT)
@@ -268,7 +274,8 @@ C07_BINARY(fmin, view::fmin_t<>{}, D_FULL, D_FULL, PMATH, M_FLT)
 C07_BINARY(arctan2, view::arctan2_t{}, D_ARITH, D_ARITH, PMATH, M_FLT)
 C07_BINARY(hypot, view::hypot_t{}, D_ARITH, D_ARITH, PMATH, M_FLT)
 C07_BINARY(ldexp, view::ldexp_t{}, D_SMALL, D_SMALL, PLDEXP, M_LDEXP)
-using group_fns = fl<fmod_d, power_d, fmax_d, fmin_d, arctan2_d, hypot_d, ldexp_d>;
+C07_UNARY(logical_not, view::logical_not_t{}, D_LOGIC, U8L)
+using group_fns = fl<fmod_d, power_d, fmax_d, fmin_d, arctan2_d, hypot_d, ldexp_d, logical_not_d>;
 #elif C07_GROUP == 9
 C07_UNARY(negative, view::negative_t{}, D_ARITH, U8L)
 C07_UNARY(positive, view::positive_t{}, D_FULL, U8L)
@@ -418,10 +425,11 @@ template <typename FN> static void enum_fn(bool th, const nmc::Sink& emit) {
         each_types(typename FN::types{}, [&](auto tup) {
             using TC = typename decltype(tup)::template at<0>; using TX = typename decltype(tup)::template at<1>; using TY = typename decltype(tup)::template at<2>;
             L ty{tid<TC>(), tid<TX>(), tid<TY>()};
-            constexpr bool menu = FN::template menu<TC, TX, TY>();
+            constexpr int menu = FN::template menu<TC, TX, TY>();
             for (auto& k : WHERE_KINDS) {
                 bool all_arrays = k[0] != 2 && k[1] != 2 && k[2] != 2;
-                if (!menu && !(k[0] == 0 && k[1] == 0 && k[2] == 0)) continue;   // kind menu on the menu triples only
+                bool plain = k[0] == 0 && k[1] == 0 && k[2] == 0;
+                if (!plain && (menu == 0 || (menu == 1 && all_arrays))) continue;   // kind menu on the menu triples only
                 L kk{k[0] * 100 + k[1] * 10 + k[2]};
                 each_shape_triple(th, [&](const L& a, const L& b, const L& c) {
                     if (!all_arrays) { if ((k[1] == 2 && b != L{1}) || (k[2] == 2 && c != L{1})) return; }   // scalar slots: enumerate the other shapes once
@@ -462,16 +470,20 @@ template <typename FN, typename TA, typename TB> static Outcome exec_binary_k(lo
 }
 template <typename FN, typename TC, typename TX, typename TY> static Outcome exec_where_k(long kk, const L& a, const L& b, const L& c) {
     if (kk == 0) return run_where<FN, TC, TX, TY, K_A, K_A, K_A>(a, b, c);
-    if constexpr (FN::template menu<TC, TX, TY>()) {
+    if constexpr (FN::template menu<TC, TX, TY>() >= 1) {
         switch (kk) {
         case 20:  return run_where<FN, TC, TX, TY, K_A, K_S, K_A>(a, b, c);
+        case 2:   return run_where<FN, TC, TX, TY, K_A, K_A, K_S>(a, b, c);
+        case 22:  return run_where<FN, TC, TX, TY, K_A, K_S, K_S>(a, b, c);
+        case 102: return run_where<FN, TC, TX, TY, K_V, K_A, K_S>(a, b, c);
+        }
+    }
+    if constexpr (FN::template menu<TC, TX, TY>() == 2) {
+        switch (kk) {
         case 100: return run_where<FN, TC, TX, TY, K_V, K_A, K_A>(a, b, c);
         case 10:  return run_where<FN, TC, TX, TY, K_A, K_V, K_A>(a, b, c);
         case 1:   return run_where<FN, TC, TX, TY, K_A, K_A, K_V>(a, b, c);
         case 111: return run_where<FN, TC, TX, TY, K_V, K_V, K_V>(a, b, c);
-        case 2:   return run_where<FN, TC, TX, TY, K_A, K_A, K_S>(a, b, c);
-        case 22:  return run_where<FN, TC, TX, TY, K_A, K_S, K_S>(a, b, c);
-        case 102: return run_where<FN, TC, TX, TY, K_V, K_A, K_S>(a, b, c);
         }
     }
     nmc::die("where kind not instantiated");
